@@ -6,7 +6,8 @@ Property theorems only.  Helper lemmas: `Karp/Proofs/WeightPriceLemmas.lean`, `K
 Model: `Karp/Model/WeightOrder.lean` (OrderByWeight, sort.Slice as a relation),
        `Karp/Model/FirstSuccess.lean` (parallelizeUntil + the publication protocol of addToNewNodeClaim),
        `Karp/Model/PriceOrder.lean` (OrderByPrice, Truncate, Cheapest, ToNodeClaim truncation),
-       `Karp/Model/PoolFilter.lean` (the NodePool filter of Provisioner.NewScheduler: dynamic, Ready is True, not deleting).
+       `Karp/Model/PoolFilter.lean` (the NodePool filter of Provisioner.NewScheduler: dynamic, Ready is True, not deleting),
+       `Karp/Model/Relax.lean` (PreferNoSchedule taints: the flag of NewScheduler, trySchedule + Preferences.Relax).
 Spec:  `Karp/Spec/WeightPrice.lean`.
 -/
 import Karp.Proofs.WeightPriceLemmas
@@ -17,9 +18,10 @@ import Karp.Proofs.ReservedFallbackLemmas
 import Karp.Proofs.PoolFilterLemmas
 import Karp.Spec.WeightPrice
 import Karp.Spec.PoolPass
+import Karp.Model.Relax
 
 namespace Karp.C19
-open List Karp.WeightOrder Karp.PriceOrder Karp.FirstSuccess Karp.ReservedFallback Karp.Spec.WeightPrice Karp.PoolFilter
+open List Karp.WeightOrder Karp.PriceOrder Karp.FirstSuccess Karp.ReservedFallback Karp.Spec.WeightPrice Karp.PoolFilter Karp.Relax
 
 /-! ## Fact expectations over the regenerated source facts -/
 
@@ -49,6 +51,21 @@ theorem fact_truncate_slices_ordered :
     (two publication sites: reserved-offering error and success) -/
 theorem fact_addToNewNodeClaim_protocol :
     Karp.Gen.C19Facts.addToNewNodeClaimCalls = ["parallelizeUntil", "Lock", "Lock"] := by decide
+
+/-- `NewNodeClaimTemplate` merges the injected labels (`karpenter.sh/nodepool=<name>`, the NodeClass label) into the
+    template's labels BEFORE it derives the template's requirements from the labels: the template requires
+    `karpenter.sh/nodepool In [<name>]`, which is what keeps a pod that selects or excludes pools by name away from the
+    others (the label key is well known, so a template WITHOUT the requirement is compatible with every such pod) -/
+theorem fact_template_labels_before_requirements :
+    Karp.Gen.C19Facts.newNodeClaimTemplateCalls = ["Assign", "Assign", "NewLabelRequirements"] := by decide
+
+/-- `NewScheduler`: the flag "some NodePool has a `PreferNoSchedule` taint" starts `false` and every later assignment
+    only raises it (`= true` or `= flag || …`): it is the disjunction over ALL pools (`Model/Relax.tolerateFlag`), not the
+    verdict on whichever pool the loop saw last -/
+theorem fact_tolerate_flag_accumulates :
+    Karp.Gen.C19Facts.tolerateFlagAssigns.head? = some "false" ∧
+    Karp.Gen.C19Facts.tolerateFlagAssigns.tail.all (fun a => a == "true" || a == "or-self") = true ∧
+    Karp.Gen.C19Facts.tolerateFlagAssigns.tail ≠ [] := by decide
 
 /-! ## Weight order -/
 
@@ -357,6 +374,134 @@ theorem C19_ready_weight_priority (pools ord : List Pool) (info : Pool → Meta)
     · obtain ⟨hpp, hel⟩ := mem_filter.mp hp
       exact Or.inr ⟨p, hpp, hel, hres, fun q hq he hr => hall q (mem_filter.mpr ⟨hq, he⟩) hr⟩
 
+/-! ## PreferNoSchedule taints: a preference steers, it never strands -/
+
+/-- outcome of evaluating a pool's template for the pod in the round that treats the taint preference as a requirement
+    (`strict`) or after `Preferences.Relax` dropped it -/
+def roundOutcome (host avoid : Pool → Bool) (strict : Bool) (p : Pool) : Outcome :=
+  if host p && (!strict || !avoid p) then .ok else .fail
+
+/-- a round over pools that own no capacity reservation never ends waiting for one -/
+theorem C19_soft_round_never_waits (host avoid : Pool → Bool) (strict : Bool) (ord : List Pool) :
+    waits (ord.map (roundOutcome host avoid strict)) = false := by
+  unfold waits
+  cases h : firstDecisive (ord.map (roundOutcome host avoid strict)) with
+  | none => rfl
+  | some mo =>
+    obtain ⟨m, o⟩ := mo
+    cases o with
+    | reserved =>
+      obtain ⟨hm, ho⟩ := firstDecisive_some _ m _ h
+      have hlt : m < ord.length := by simpa using hm.1
+      simp only [getD, getElem?_map, getElem?_eq_getElem hlt, Option.map_some, Option.getD_some, roundOutcome] at ho
+      split at ho <;> cases ho
+    | ok => rfl
+    | fail => rfl
+
+/-- **C19_soft_taint_priority** (first sentence of the property in the presence of `PreferNoSchedule` taints; all pool
+    sets, every `host` / `avoid` assignment, every degree of parallelism, every interleaving of BOTH evaluation rounds)
+    — `host q`: pool `q` is able to host the pod (taint preferences aside); `avoid q`: `q` carries a `PreferNoSchedule`
+    taint the pod does not tolerate; `tainted q`: it carries one at all.  With the flag of `NewScheduler` being the
+    disjunction over all pools:
+    * the pod is left without a node ONLY IF NO pool is able to host it — a preference never costs the pod its node,
+      wherever in the weight order the soft-tainted pools sit;
+    * if it opens a node in `p`, then `p` can host it, and either the preferences were honoured (`p` is not avoided and
+      every pool ranking before `p` — every higher-weight pool — cannot host the pod without going against one), or
+      they could not be honoured by any pool and every pool ranking before `p` cannot host the pod at all. -/
+theorem C19_soft_taint_priority (pools ord : List Pool) (host tainted avoid : Pool → Bool)
+    (havoid : ∀ q ∈ pools, avoid q = true → tainted q = true)
+    (n : Int) (s1 s2 : List Nat)
+    (hsort : allowedSort before pools ord = true)
+    (hd1 : allDone (run (ord.map (roundOutcome host avoid true)) (init (effectiveWorkers n) (ord.map (roundOutcome host avoid true))) s1) = true)
+    (hd2 : allDone (run (ord.map (roundOutcome host avoid false)) (init (effectiveWorkers n) (ord.map (roundOutcome host avoid false))) s2) = true) :
+    match place (tolerateFlag (ord.map tainted))
+        (result (run (ord.map (roundOutcome host avoid true)) (init (effectiveWorkers n) (ord.map (roundOutcome host avoid true))) s1))
+        (waits (ord.map (roundOutcome host avoid true)))
+        (result (run (ord.map (roundOutcome host avoid false)) (init (effectiveWorkers n) (ord.map (roundOutcome host avoid false))) s2)) with
+    | some i => ∃ p, ord[i]? = some p ∧ p ∈ pools ∧ host p = true ∧
+        ((avoid p = false ∧ ∀ q ∈ pools, (before q p = true ∨ p.weight < q.weight) → (host q && !avoid q) = false) ∨
+         ((∀ q ∈ pools, (host q && !avoid q) = false) ∧
+          ∀ q ∈ pools, (before q p = true ∨ p.weight < q.weight) → host q = false))
+    | none => ∀ q ∈ pools, host q = false := by
+  have h1 := C19_weight_priority pools ord (roundOutcome host avoid true) n s1 hsort hd1
+  have h2 := C19_weight_priority pools ord (roundOutcome host avoid false) n s2 hsort hd2
+  rw [C19_soft_round_never_waits]
+  simp only [allowedSort, Bool.and_eq_true] at hsort
+  have hperm : pools ~ ord := isPerm_iff.mp hsort.1
+  -- what an outcome says
+  have hokS : ∀ p, roundOutcome host avoid true p = .ok → host p = true ∧ avoid p = false := by
+    intro p h; unfold roundOutcome at h; split at h
+    · rename_i hc; simpa using hc
+    · cases h
+  have hfailS : ∀ p, roundOutcome host avoid true p = .fail → (host p && !avoid p) = false := by
+    intro p h; unfold roundOutcome at h; split at h
+    · cases h
+    · rename_i hc; simpa using hc
+  have hokR : ∀ p, roundOutcome host avoid false p = .ok → host p = true := by
+    intro p h; unfold roundOutcome at h; split at h
+    · rename_i hc; simpa using hc
+    · cases h
+  have hfailR : ∀ p, roundOutcome host avoid false p = .fail → host p = false := by
+    intro p h; unfold roundOutcome at h; split at h
+    · cases h
+    · rename_i hc; simpa using hc
+  have hnres : ∀ b p, roundOutcome host avoid b p ≠ .reserved := by
+    intro b p h; unfold roundOutcome at h; split at h <;> cases h
+  generalize result (run (ord.map (roundOutcome host avoid true)) (init (effectiveWorkers n) (ord.map (roundOutcome host avoid true))) s1) = r1 at h1 ⊢
+  generalize result (run (ord.map (roundOutcome host avoid false)) (init (effectiveWorkers n) (ord.map (roundOutcome host avoid false))) s2) = r2 at h2 ⊢
+  cases r1 with
+  | some i =>
+    obtain ⟨p, hp, hok, hall⟩ := h1
+    obtain ⟨hh, ha⟩ := hokS p hok
+    exact ⟨p, hp, hperm.mem_iff.mpr (mem_of_getElem? hp), hh, Or.inl ⟨ha, fun q hq hr => hfailS q (hall q hq hr)⟩⟩
+  | none =>
+    have hallS : ∀ q ∈ pools, (host q && !avoid q) = false := by
+      rcases h1 with h | ⟨p, _, hres, _⟩
+      · exact fun q hq => hfailS q (h q hq)
+      · exact absurd hres (hnres _ _)
+    simp only [place, Bool.false_eq_true, if_false]
+    by_cases hflag : tolerateFlag (ord.map tainted) = true
+    · simp only [hflag, if_true]
+      cases r2 with
+      | some i =>
+        obtain ⟨p, hp, hok, hall⟩ := h2
+        exact ⟨p, hp, hperm.mem_iff.mpr (mem_of_getElem? hp), hokR p hok,
+          Or.inr ⟨hallS, fun q hq hr => hfailR q (hall q hq hr)⟩⟩
+      | none =>
+        rcases h2 with h | ⟨p, _, hres, _⟩
+        · exact fun q hq => hfailR q (h q hq)
+        · exact absurd hres (hnres _ _)
+    · simp only [hflag]
+      intro q hq
+      have hs := hallS q hq
+      cases hh : host q with
+      | false => rfl
+      | true =>
+        rw [hh] at hs
+        have hav : avoid q = true := by simpa using hs
+        have ht := havoid q hq hav
+        exfalso; apply hflag
+        unfold tolerateFlag
+        simp only [any_map, any_eq_true, Function.comp]
+        exact ⟨q, hperm.mem_iff.mp hq, ht⟩
+
+/-- the flag of `NewScheduler` does not depend on WHERE in the slice the soft-tainted pools sit (weight order included) -/
+theorem C19_tolerate_flag_any_position (a b : List Bool) (h : a ~ b) : tolerateFlag a = tolerateFlag b := by
+  unfold tolerateFlag
+  rw [Bool.eq_iff_iff]
+  simp only [any_eq_true]
+  exact ⟨fun ⟨x, hx, hx'⟩ => ⟨x, h.mem_iff.mp hx, hx'⟩, fun ⟨x, hx, hx'⟩ => ⟨x, h.mem_iff.mpr hx, hx'⟩⟩
+
+/-- the specification's side: being able to host a pod never depends on a taint preference; honouring the
+    preferences only narrows the candidates -/
+theorem C19_preference_never_decides_feasibility (p : Spec.PoolPass.PPool) (pod : Spec.PoolPass.PPod) :
+    Spec.PoolPass.hostsAt false p pod = Spec.PoolPass.hosts p [pod] ∧
+    (Spec.PoolPass.hostsAt true p pod = true → Spec.PoolPass.hosts p [pod] = true) := by
+  unfold Spec.PoolPass.hostsAt
+  constructor
+  · simp
+  · intro h; simp only [Bool.and_eq_true] at h; exact h.1
+
 /-! ## Whole passes with capacity reservations -/
 
 /-- **C19_reserved_pass_priority** (all pool sets, all pod batches; `Model/ReservedFallback.pass` = the pass in which
@@ -552,6 +697,25 @@ example := C19_weight_priority [pA, pD, pC, pB] [pC, pB, pA, pD] fEx 2 [0, 1, 0,
 example : progressMeasure [Outcome.fail, .ok] (step [Outcome.fail, .ok] (init 2 [Outcome.fail, .ok]) 1)
     < progressMeasure [Outcome.fail, .ok] (init 2 [Outcome.fail, .ok]) :=
   C19_schedule_progress _ _ 1 ⟨W.idle, by decide, by decide⟩
+
+/-- soft taints: the weight-50 pool is the only one able to host the pod and carries a `PreferNoSchedule` taint the
+    pod does not tolerate; no other pool has one (the lowest-weight pool in particular).  Round one fails everywhere,
+    the flag is raised, round two (two workers) publishes index 0: the pod lands in the soft-tainted top pool. -/
+def softEx (p : Pool) : Bool := p.weight = 50
+def hostEx (p : Pool) : Bool := decide (p.weight = 50) || decide (p.weight = 0)
+def hostOnlyTop (p : Pool) : Bool := p.weight = 50
+
+example : placeSequential [true, false] [.fail, .fail] [.ok, .fail] = some 0 := by decide
+example : placeSequential [true, false] [.fail, .ok] [.ok, .ok] = some 1 := by decide
+example : placeSequential [false, false] [.fail, .fail] [.fail, .fail] = none := by decide
+example : placeSequential [true, false] [.fail, .reserved] [.ok, .ok] = none := by decide
+
+example := C19_soft_taint_priority [pA, pD, pC, pB] [pC, pB, pA, pD] hostOnlyTop softEx softEx (by decide) 2
+  [0, 1, 0, 1, 0, 1, 0, 1, 0, 1] [0, 1, 0, 1, 1, 1, 1, 1, 1, 1] (by decide) (by decide) (by decide)
+example : place (tolerateFlag ([pC, pB, pA, pD].map softEx))
+    (result (run ([pC, pB, pA, pD].map (roundOutcome hostOnlyTop softEx true)) (init (effectiveWorkers 2) ([pC, pB, pA, pD].map (roundOutcome hostOnlyTop softEx true))) [0, 1, 0, 1, 0, 1, 0, 1, 0, 1]))
+    (waits ([pC, pB, pA, pD].map (roundOutcome hostOnlyTop softEx true)))
+    (result (run ([pC, pB, pA, pD].map (roundOutcome hostOnlyTop softEx false)) (init (effectiveWorkers 2) ([pC, pB, pA, pD].map (roundOutcome hostOnlyTop softEx false))) [0, 1, 0, 1, 1, 1, 1, 1, 1, 1])) = some 0 := by decide
 
 /-- the pool filter on concrete condition lists: healthy pool; NodeClass not resolved yet (Ready Unknown); nothing
     reported yet; Ready False; failing registrations do not make a pool unready; static and deleting pools -/
